@@ -21,7 +21,7 @@ const RULES: [Option<&str>; 9] = [
     Some("SCREAMING-KEBAB-CASE"),
 ];
 // quick uses the first three pairs; camelCase keys are among them because a backend that re-cases keys leaves all-lowercase ones alone
-const KEYS: [(&str, &str); 6] = [("type", "content"), ("t", "c"), ("kindId", "dataUrl"), ("tag_key", "content_key"), ("Type", "Content"), ("kind", "data")];
+const KEYS: [(&str, &str); 7] = [("type", "content"), ("t", "c"), ("case", "default"), ("kindId", "dataUrl"), ("tag_key", "content_key"), ("Type", "Content"), ("kind", "data")];
 const IDENTS: [[&str; 2]; 3] = [["A", "Foo"], ["FooBar", "Foo1"], ["Baz", "Baz"]];
 
 #[derive(Clone, Copy, Debug, PartialEq, Eq)]
@@ -345,7 +345,7 @@ pub fn run(args: &[String]) -> i32 {
     let tier = report::tier_from_env(args);
     let mut rep = Report::new("C02", &tier);
     controls(&mut rep);
-    let (maxv, keyn) = if rep.thorough() { (3, 6) } else { (2, 3) };
+    let (maxv, keyn) = if rep.thorough() { (3, 7) } else { (2, 3) };
     let (accs, stats) = explore(
         |ch| {
             gen(ch, maxv, keyn);
